@@ -126,7 +126,8 @@ def check_number(case, ctx):
             if td != expdim or typ != exptype:
                 raise Violation('number:accessor-dimension-or-type', f'{lit!r}: dimension {td!r} type {typ!r}')
             if fp:
-                ok = isinstance(tv, float) and tv == float(val)
+                # (an integral literal too long for a float may come as the exact int)
+                ok = (isinstance(tv, float) and tv == float(val)) or (isinstance(tv, int) and not fp.strip('0') and tv == val)
             else:
                 ok = isinstance(tv, int) and tv == val
             if not ok:
